@@ -297,3 +297,12 @@ PROPS["C09"] = dict(
     rule=SEQ_RULE + "; --focus-cache: SimpleCache always on, saturating (heavily re-convergent) TableDP instances with few base states and many layers, width 1..2; " + PAR_RULE,
     trivial_tags=SEQ_TRIVIAL + MDD_TRIVIAL + PAR_TRIVIAL + ["exhaustive"],
 )
+
+# observables of the diagram engine each property is about (a disagreement on another observable alone does not alarm it)
+PROPS["C06"]["observables"] = ["status", "polls"]
+PROPS["C07"]["observables"] = ["status", "polls"]
+PROPS["C08"]["observables"] = ["status", "cutset"]
+PROPS["C09"]["observables"] = ["status", "ups", "cutset"]
+PROPS["C10"]["observables"] = ["status", "ndom", "ups", "cutset"]
+PROPS["C12"]["observables"] = ["log", "polls"]
+PROPS["C13"]["observables"] = ["expanded"]
